@@ -53,12 +53,14 @@ def content_diff(triples_a, top_a, triples_b, top_b, spec, explicit_top_a=None):
     return ''
 
 
-def weakly_connected_from(triples, top):
-    """set of variables (sources, plus top) weakly connected to top; edges = triples whose target is a source."""
-    srcs = {t[0] for t in triples}
+def weakly_connected_from(triples, top, vs=None):
+    """Set of variables weakly connected to *top*.  vs = the graph's variables (sources plus an explicit top);
+    an edge is a non-instance triple whose target is a variable."""
+    if vs is None:
+        vs = {t[0] for t in triples} | {top}
     adj = {}
     for s, r, t in triples:
-        if t in srcs and r != ':instance' or (t in srcs and r == ':instance' and False):
+        if r != ':instance' and t in vs:
             adj.setdefault(s, set()).add(t)
             adj.setdefault(t, set()).add(s)
     seen = set()
